@@ -46,6 +46,10 @@ Next == /\ book = None
                 /\ GoodEntry(e1) /\ GoodEntry(e2) /\ Len(e1.moves) = 1 /\ Len(e2.moves) = 2
                 /\ e1.weights[1] = 1 /\ e2.moves = <<1, 2>>
                 /\ book' = [entries |-> <<e1, e2>>, trunc |-> 0]
+           \* the records of one position need not be adjacent (any byte string is a book file): A, B, A again, also with the same move twice
+           \/ \E q \in Positions \ {seedp} : \E m1, m3 \in 1..3, w1, w3 \in {1, 5} :
+                book' = [entries |-> <<[pos |-> seedp, moves |-> <<m1>>, weights |-> <<w1>>], [pos |-> q, moves |-> <<1>>, weights |-> <<2>>],
+                                       [pos |-> seedp, moves |-> <<m3>>, weights |-> <<w3>>]>>, trunc |-> 0]
            \/ \E trunc \in {0, 5, 15} : seedp = P1 /\ book' = [entries |-> <<>>, trunc |-> trunc]
            \* weights that do not fit a signed byte / a signed 16-bit word (the field is an unsigned big-endian 16-bit number)
            \/ \E ws \in {<<40000, 100>>, <<65535, 32768, 32767>>, <<256, 255>>, <<128, 32768>>, <<200, 129, 127>>} :
@@ -68,8 +72,18 @@ EntryOut(e) ==
       best |-> {ucis[i] : i \in BestSet(e.weights)},
       cum |-> [i \in 1..n |-> SumTo(e.weights, i)],
       pick |-> IF total <= 64 THEN [s \in 1..total |-> ucis[Pick(e.weights, s - 1)]] ELSE <<>>]
+\* what the book holds per position: the records of that key in file order, wherever they stand in the file
+RECURSIVE Dedup(_, _)
+Dedup(seq, seen) == IF seq = <<>> THEN <<>> ELSE IF Head(seq) \in seen THEN Dedup(Tail(seq), seen)
+                    ELSE <<Head(seq)>> \o Dedup(Tail(seq), seen \cup {Head(seq)})
+RECURSIVE CatS(_)
+CatS(seqs) == IF seqs = <<>> THEN <<>> ELSE Head(seqs) \o CatS(Tail(seqs))
+Merged(b) == LET ps == Dedup([i \in 1..Len(b.entries) |-> b.entries[i].pos], {})
+                 Of(p) == SelectSeq(b.entries, LAMBDA e : e.pos = p)
+             IN [k \in 1..Len(ps) |-> [pos |-> ps[k], moves |-> CatS([j \in 1..Len(Of(ps[k])) |-> Of(ps[k])[j].moves]),
+                                        weights |-> CatS([j \in 1..Len(Of(ps[k])) |-> Of(ps[k])[j].weights])]]
 Line(b) == ToJson([bytes |-> BytesHex(b), nrecords |-> SumTo([i \in 1..Len(b.entries) |-> Len(b.entries[i].moves)], Len(b.entries)),
-                   trunc |-> b.trunc, entries |-> [i \in 1..Len(b.entries) |-> EntryOut(b.entries[i])]])
+                   trunc |-> b.trunc, entries |-> [i \in 1..Len(Merged(b)) |-> EntryOut(Merged(b)[i])]])
 \* decoding a stored move gives back the move that was stored (spec self-check on every emitted record)
 SelfCheck(b) == \A i \in 1..Len(b.entries) : LET e == b.entries[i] IN
                   \A j \in 1..Len(e.moves) : DecodeBookMove(e.pos, BookMoveCode(e.pos, ParseUci(Cand(e.pos)[e.moves[j]]))) = Cand(e.pos)[e.moves[j]]
